@@ -529,7 +529,7 @@ theorem Sync.write {K0 : Console} {t t' : VT} (s : Sync K0 t) {b fg bg : UInt8} 
 /-- the viewport moved up by one line with a blank last line and, if Active, the console was
 scrolled and its last line filled -/
 theorem Sync.scroll {K0 : Console} {t t' : VT} (s : Sync K0 t) {fg bg : UInt8}
-    (w1 : 1 ≤ t.viewportWidth) (h1 : 1 ≤ t.viewportHeight)
+    (_w1 : 1 ≤ t.viewportWidth) (h1 : 1 ≤ t.viewportHeight)
     (ho : t'.out = if t.active then [Call.fill 1 t.viewportHeight t.viewportWidth 1 fg bg,
       Call.scroll Firefly.Gen.C17.scrollDirUp 1] ++ t.out else t.out)
     (hw : t'.viewportWidth = t.viewportWidth) (hh : t'.viewportHeight = t.viewportHeight)
@@ -1032,18 +1032,135 @@ theorem redrawRows_spec {t : VT} (g : Geo t) : ∀ (n y : Nat) (out : List Call)
     rw [ih (y + 1) _ (by omega) (by omega)]
     rfl
 
+theorem allRows_append (d : Array UInt8) (w vy : Nat) : ∀ (n y : Nat) (a b : List Call),
+    allRows d w vy n y (a ++ b) = allRows d w vy n y a ++ b := by
+  intro n
+  induction n with
+  | zero => intro y a b; rfl
+  | succ n ih =>
+    intro y a b
+    simp only [allRows]
+    rw [← List.append_assoc, ih]
+
+/-- the first `m` writes of one redrawn line -/
+theorem rowCalls_prefix {K : Console} (wf : WF K) (d : Array UInt8) {w vy y : Nat} (hw : K.w = w)
+    (hy : 1 ≤ y ∧ y ≤ K.h) : ∀ m, m ≤ w →
+    let K' := K.applyLog ((List.range m).reverse.map fun k =>
+      Call.write (cellAt d w (y - 1 + vy) k).ch (cellAt d w (y - 1 + vy) k).fg (cellAt d w (y - 1 + vy) k).bg (k + 1) y)
+    K'.w = K.w ∧ K'.h = K.h ∧ WF K' ∧ K'.outside = K.outside ∧
+      ∀ r c, r < K.h → c < K.w → K'.at r c = if r = y - 1 ∧ c < m then cellAt d w (y - 1 + vy) c else K.at r c := by
+  intro m
+  induction m with
+  | zero =>
+    intro _
+    refine ⟨rfl, rfl, wf, rfl, ?_⟩
+    intro r c _ _
+    simp [Console.applyLog]
+  | succ m ih =>
+    intro hm
+    obtain ⟨i1, i2, i3, i4, i5⟩ := ih (by omega)
+    simp only [List.range_succ, List.reverse_append, List.reverse_singleton, List.singleton_append,
+      List.map_cons, applyLog_cons, Console.apply]
+    obtain ⟨w1, w2, w3, w4, w5⟩ := write_in i3 (cellAt d w (y - 1 + vy) m).ch (cellAt d w (y - 1 + vy) m).fg
+      (cellAt d w (y - 1 + vy) m).bg (x := m + 1) (y := y) (by rw [i1, hw]; omega) (by rw [i2]; exact hy)
+    refine ⟨by rw [w1, i1], by rw [w2, i2], w3, by rw [w4, i4], ?_⟩
+    intro r c hr hc
+    rw [w5 r c (by rw [i2]; exact hr) (by rw [i1]; exact hc), i5 r c hr hc]
+    by_cases e1 : r = y - 1 ∧ c = m + 1 - 1
+    · have e2 : r = y - 1 ∧ c < m + 1 := ⟨e1.1, by omega⟩
+      rw [if_pos e1, if_pos e2]
+      have : c = m := by omega
+      rw [this]
+    · by_cases e2 : r = y - 1 ∧ c < m
+      · have e3 : r = y - 1 ∧ c < m + 1 := ⟨e2.1, by omega⟩
+        rw [if_neg e1, if_pos e2, if_pos e3]
+      · have e3 : ¬ (r = y - 1 ∧ c < m + 1) := by
+          intro h; apply e2; refine ⟨h.1, ?_⟩
+          have : ¬ c = m + 1 - 1 := fun h2 => e1 ⟨h.1, h2⟩
+          omega
+        rw [if_neg e1, if_neg e2, if_neg e3]
+
+/-- one redrawn line -/
+theorem rowCalls_apply {K : Console} (wf : WF K) (d : Array UInt8) {w vy y : Nat} (hw : K.w = w)
+    (hy : 1 ≤ y ∧ y ≤ K.h) :
+    (K.applyLog (rowCalls d w vy y)).w = K.w ∧ (K.applyLog (rowCalls d w vy y)).h = K.h ∧
+      WF (K.applyLog (rowCalls d w vy y)) ∧ (K.applyLog (rowCalls d w vy y)).outside = K.outside ∧
+      ∀ r c, r < K.h → c < K.w →
+        (K.applyLog (rowCalls d w vy y)).at r c = if r = y - 1 then cellAt d w (y - 1 + vy) c else K.at r c := by
+  obtain ⟨a1, a2, a3, a4, a5⟩ := rowCalls_prefix wf d hw hy w (Nat.le_refl w)
+  refine ⟨a1, a2, a3, a4, ?_⟩
+  intro r c hr hc
+  have := a5 r c hr hc
+  rw [hw] at hc
+  simpa [rowCalls, hc] using this
+
+theorem rowCalls_ok (d : Array UInt8) {w vy y h : Nat} (hy : 1 ≤ y ∧ y ≤ h) :
+    ∀ c ∈ rowCalls d w vy y, CallOk w h c := by
+  intro c hc
+  simp only [rowCalls, List.mem_map, List.mem_reverse, List.mem_range] at hc
+  obtain ⟨k, hk, rfl⟩ := hc
+  exact ⟨by omega, by omega, hy.1, hy.2⟩
+
+/-- the whole redraw: afterwards lines `y-1 …` show the viewport, whatever was there before -/
+theorem allRows_apply (K0 : Console) (d : Array UInt8) {w vy : Nat} : ∀ (n y : Nat) (out : List Call),
+    WF (K0.applyLog out) → (K0.applyLog out).w = w → 1 ≤ y → y + n = (K0.applyLog out).h + 1 →
+    (K0.applyLog (allRows d w vy n y out)).w = w ∧
+    (K0.applyLog (allRows d w vy n y out)).h = (K0.applyLog out).h ∧
+    WF (K0.applyLog (allRows d w vy n y out)) ∧
+    (K0.applyLog (allRows d w vy n y out)).outside = (K0.applyLog out).outside ∧
+    (∀ c ∈ allRows d w vy n y out, c ∈ out ∨ CallOk w (K0.applyLog out).h c) ∧
+    ∀ r c, r < (K0.applyLog out).h → c < w →
+      (K0.applyLog (allRows d w vy n y out)).at r c =
+        if y - 1 ≤ r then cellAt d w (r + vy) c else (K0.applyLog out).at r c := by
+  intro n
+  induction n with
+  | zero =>
+    intro y out wf hw hy hn
+    refine ⟨hw, rfl, wf, rfl, fun c hc => Or.inl hc, ?_⟩
+    intro r c hr hc
+    have : ¬ y - 1 ≤ r := by omega
+    simp [allRows, this]
+  | succ n ih =>
+    intro y out wf hw hy hn
+    have hyr : 1 ≤ y ∧ y ≤ (K0.applyLog out).h := by omega
+    obtain ⟨a1, a2, a3, a4, a5⟩ := rowCalls_apply wf d (vy := vy) hw hyr
+    rw [← applyLog_append] at a1 a2 a3 a4 a5
+    obtain ⟨b1, b2, b3, b4, b5, b6⟩ := ih (y + 1) (rowCalls d w vy y ++ out) a3 (by rw [a1, hw]) (by omega)
+      (by rw [a2]; omega)
+    simp only [allRows]
+    refine ⟨b1, by rw [b2, a2], b3, by rw [b4, a4], ?_, ?_⟩
+    · intro c hc
+      cases b5 c hc with
+      | inl h =>
+        cases List.mem_append.1 h with
+        | inl h => exact Or.inr (rowCalls_ok d hyr c h)
+        | inr h => exact Or.inl h
+      | inr h => rw [a2] at h; exact Or.inr h
+    · intro r c hr hc
+      rw [b6 r c (by rw [a2]; exact hr) hc, a5 r c hr (by rw [hw]; exact hc)]
+      by_cases e1 : y + 1 - 1 ≤ r
+      · have e2 : y - 1 ≤ r := by omega
+        rw [if_pos e1, if_pos e2]
+      · by_cases e2 : r = y - 1
+        · have e3 : y - 1 ≤ r := by omega
+          rw [if_neg e1, if_pos e2, if_pos e3, e2]
+        · have e3 : ¬ y - 1 ≤ r := by omega
+          rw [if_neg e1, if_neg e2, if_neg e3]
+
 theorem setState_spec {t : VT} (i : Inv t) (a : Bool) :
     ∃ t', setState t a = .ok t' ∧ Inv t' ∧ absVT t' = absVT t ∧ t'.active = a ∧
       t'.out = (if t.active = a ∨ a = false then t.out
                 else allRows t.data t.viewportWidth t.viewportY t.viewportHeight 1 t.out) ∧
-      t'.data = t.data ∧ t'.viewportY = t.viewportY := by
+      t'.data = t.data ∧ t'.viewportY = t.viewportY ∧ (∀ K0, Sync K0 t → Sync K0 t') := by
   have g := i.toGeo
   by_cases h : t.active = a
-  · exact ⟨t, by simp [setState, h], i, rfl, h, by simp [h], rfl, rfl⟩
+  · exact ⟨t, by simp [setState, h], i, rfl, h, by simp [h], rfl, rfl, fun _ s => s⟩
   · cases a with
     | false =>
-      refine ⟨{ t with active := false }, by simp [setState, h], ?_, rfl, rfl, by simp, rfl, rfl⟩
-      exact ⟨g.frame rfl rfl rfl rfl rfl rfl rfl rfl rfl rfl rfl rfl g.cy1 g.cyh, i.cx1, i.cxw, i.off⟩
+      refine ⟨{ t with active := false }, by simp [setState, h], ?_, rfl, rfl, by simp, rfl, rfl, ?_⟩
+      · exact ⟨g.frame rfl rfl rfl rfl rfl rfl rfl rfl rfl rfl rfl rfl g.cy1 g.cyh, i.cx1, i.cxw, i.off⟩
+      · intro K0 s
+        exact s.frame rfl rfl rfl (fun h => by cases h) (fun _ _ _ _ => rfl)
     | true =>
       have g1 : Geo { t with active := true } :=
         g.frame rfl rfl rfl rfl rfl rfl rfl rfl rfl rfl rfl rfl g.cy1 g.cyh
@@ -1051,7 +1168,7 @@ theorem setState_spec {t : VT} (i : Inv t) (a : Bool) :
         redrawRows_spec g1 t.viewportHeight 1 t.out (by omega) (by simp; omega)
       refine ⟨{ t with active := true,
                        out := allRows t.data t.viewportWidth t.viewportY t.viewportHeight 1 t.out },
-        ?_, ?_, rfl, rfl, ?_, rfl, rfl⟩
+        ?_, ?_, rfl, rfl, ?_, rfl, rfl, ?_⟩
       · have hatt : ({ t with active := true } : VT).attached = true := g.att
         unfold setState
         rw [if_neg h]
@@ -1059,7 +1176,18 @@ theorem setState_spec {t : VT} (i : Inv t) (a : Bool) :
         simp [g.att]
       · exact ⟨g.frame rfl rfl rfl rfl rfl rfl rfl rfl rfl rfl rfl rfl g.cy1 g.cyh, i.cx1, i.cxw, i.off⟩
       · simp [h]
-
+      · intro K0 s
+        obtain ⟨b1, b2, b3, b4, b5, b6⟩ := allRows_apply K0 t.data (vy := t.viewportY) t.viewportHeight 1 t.out
+          s.wf s.w (Nat.le_refl 1) (by rw [s.h]; omega)
+        refine ⟨b1, b2.trans s.h, b3, b4.trans s.outside, ?_, ?_⟩
+        · intro c hc
+          cases b5 c hc with
+          | inl h => exact s.ok c h
+          | inr h => rw [s.h] at h; exact h
+        · intro _ r c hr hc
+          have := b6 r c (by rw [s.h]; exact hr) hc
+          rw [this, if_pos (by omega)]
+          simp only [vcell, Nat.add_comm]
 
 /-! ### `AttachTo`, single steps, histories -/
 
@@ -1133,6 +1261,75 @@ theorem run_spec : ∀ (ops : List Op) {t : VT}, Inv t →
     obtain ⟨t2, a2, i2, r2⟩ := ih i1
     refine ⟨t2, by simp [run, a1, Res.bind, a2], i2, ?_⟩
     rw [r2, r1]; rfl
+
+/-- one operation keeps the console in sync, and draws nothing while the terminal is Inactive
+(activation excepted) -/
+theorem step_sync {t t' : VT} (i : Inv t) (op : Op) (h : step t op = .ok t') :
+    (∀ K0, Sync K0 t → Sync K0 t') ∧ (t.active = false → op ≠ .state true → t'.out = t.out) := by
+  cases op with
+  | byte b =>
+    obtain ⟨t1, a, _, _, _, y, q⟩ := writeByte_spec i b
+    have : step t (.byte b) = .ok t1 := a
+    rw [this] at h; cases h
+    exact ⟨y, fun z _ => q z⟩
+  | cursor x y =>
+    have := setCursor_spec i x y
+    have e : step t (.cursor x y) = .ok (setCursorPosition t x y) := rfl
+    rw [e] at h; cases h
+    exact ⟨this.2.2.2.2, fun _ _ => this.2.2.2.1⟩
+  | state a =>
+    obtain ⟨t1, a', _, _, _, o, _, _, y⟩ := setState_spec i a
+    have : step t (.state a) = .ok t1 := a'
+    rw [this] at h; cases h
+    refine ⟨y, ?_⟩
+    intro z ne
+    rw [o]
+    cases a with
+    | false => simp
+    | true => exact absurd rfl ne
+
+theorem run_sync : ∀ (ops : List Op) {t t' : VT}, Inv t → run t ops = .ok t' →
+    ∀ K0, Sync K0 t → Sync K0 t' := by
+  intro ops
+  induction ops with
+  | nil => intro t t' _ h K0 s; cases h; exact s
+  | cons op ops ih =>
+    intro t t' i h K0 s
+    obtain ⟨t1, a1, i1, _⟩ := step_spec i op
+    have : run t (op :: ops) = run t1 ops := by simp [run, a1, Res.bind]
+    rw [this] at h
+    exact ih i1 h K0 ((step_sync i op a1).1 K0 s)
+
+/-- a screen of the terminal's shape showing the viewport cell by cell is the viewport -/
+theorem cells_eq_viewport {K : Console} {t : VT} (g : Geo t) (wf : WF K) (hw : K.w = t.viewportWidth)
+    (hh : K.h = t.viewportHeight)
+    (hat : ∀ r c, r < t.viewportHeight → c < t.viewportWidth → K.at r c = vcell t r c) :
+    K.cells = (absVT t).viewport := by
+  have hvy := g.vy
+  have rowq : ∀ r, r < t.viewportHeight → (absVT t).viewport[r]? =
+      some ((List.range t.viewportWidth).map fun c => cellAt t.data t.viewportWidth (t.viewportY + r) c) := by
+    intro r hr
+    simp only [Term.viewport, absVT, List.getElem?_take, hr, if_true, List.getElem?_drop, gridOf_getElem?, g.tw, g.th]
+    rw [if_pos (by omega)]
+  apply cells_ext wf
+  · simp [Term.viewport, absVT, g.th, hh]; omega
+  · intro r hr
+    rw [hh] at hr
+    simp [List.getD_eq_getElem?_getD, rowq r hr, hw]
+  · intro r c hr hc
+    rw [hh] at hr; rw [hw] at hc
+    rw [hat r c hr hc]
+    simp [List.getD_eq_getElem?_getD, rowq r hr, hc, vcell]
+
+theorem Sync.cells_eq {K0 : Console} {t : VT} (s : Sync K0 t) (g : Geo t) (a : t.active = true) :
+    (K0.applyLog t.out).cells = (absVT t).viewport :=
+  cells_eq_viewport g s.wf s.w s.h (s.shows a)
+
+/-- a freshly attached (Inactive, nothing drawn) terminal is in sync with any console of its shape -/
+theorem Sync.init {K0 : Console} {t : VT} (wf : WF K0) (hw : K0.w = t.viewportWidth) (hh : K0.h = t.viewportHeight)
+    (ho : t.out = []) (ha : t.active = false) : Sync K0 t := by
+  refine ⟨by rw [ho]; exact hw, by rw [ho]; exact hh, by rw [ho]; exact wf, by rw [ho]; rfl, by rw [ho]; simp, ?_⟩
+  intro h; rw [ha] at h; cases h
 
 /-! ### the reference terminal keeps its configuration -/
 
